@@ -38,6 +38,32 @@ def clone_roots(ctx):
 
 
 # ----------------------------------------------------------------------------- C08
+def rule_clone_replaces(ctx, roots=None, rule="C08-clone_from"):
+    """clone_from replaces the target by a shallow clone of the source on EVERY path (handles that
+    share a buffer or a static text can still differ in length), and clone() is the shallow clone"""
+    F = ctx.F
+    if roots is None:
+        roots = {}
+        for i in F.impls:
+            if i["self"] == "LeanString" and i["trait"] == "core::clone::Clone":
+                roots = dict(i["items"])
+    # clone_from really replaces the target by a shallow clone of the source on every path
+    cf = roots.get("clone_from")
+    if cf and cf in F.bodies:
+        b = F.bodies[cf]
+        ctx.ob(rule, cf, "must-replace", must_pass_call(b, {"repr::Repr::replace_inner"}), how="every path through clone_from passes replace_inner(self, shallow clone of source)",
+               detail="a path through clone_from returns without replacing the target: the target is not a copy of the source afterwards (e.g. handles that share a buffer but carry different lengths)")
+        for st in inlined_sites(b, lambda nm: nm == "repr::Repr::replace_inner"):
+            a0, a1 = st.desc(0), st.desc(1)
+            ctx.ob(rule, cf, "replace-args", a0 == "p1.0" and a1 in ("repr::Repr::make_shallow_clone(p2.0)",), how="replace_inner(&mut self.0, source.0.make_shallow_clone())",
+                   detail="clone_from replaces %s by %s" % (a0, a1))
+    cl = roots.get("clone")
+    if cl and cl in F.bodies:
+        b = F.bodies[cl]
+        ds = [describe(b, ("call", bb) if si == "term" else b.origin_rvalue(x)) for (bb, si, x) in b.defs.get(0, [])]
+        ctx.ob(rule, cl, "clone=shallow", ds == ["LeanString::LeanString{repr::Repr::make_shallow_clone(p1.0)}"], how="clone() = LeanString(self.0.make_shallow_clone())", detail="clone() returns %s" % ds)
+
+
 def rule_C08(ctx):
     F, cg = ctx.F, ctx.cg
     roots = clone_roots(ctx)
@@ -63,22 +89,7 @@ def rule_C08(ctx):
         textsrc = [s for s in seen if s in ("repr::Repr::from_str", "repr::Repr::as_str", "repr::Repr::as_bytes", "LeanString::as_str")]
         ctx.ob("C08-nocopy", root, "text-copy", not copies and not heapctor and not textsrc, how="no copy primitive, heap constructor or text view reachable",
                detail="clone path can copy text: %s" % ", ".join([e.name + " in " + e.src for e in copies[:3]] + heapctor[:3] + textsrc[:3]))
-    # clone_from really replaces the target by a shallow clone of the source on every path
-    cf = roots.get("clone_from")
-    if cf and cf in F.bodies:
-        b = F.bodies[cf]
-        ctx.ob("C08-clone_from", cf, "must-replace", must_pass_call(b, {"repr::Repr::replace_inner"}), how="every path through clone_from passes replace_inner(self, shallow clone of source)",
-               detail="a path through clone_from returns without replacing the target: the target is not a copy of the source afterwards (e.g. handles that share a buffer but carry different lengths)")
-        for st in inlined_sites(b, lambda nm: nm == "repr::Repr::replace_inner"):
-            a0, a1 = st.desc(0), st.desc(1)
-            ctx.ob("C08-clone_from", cf, "replace-args", a0 == "&*p1.0" and a1 in ("repr::Repr::make_shallow_clone(&*p2.0)",), how="replace_inner(&mut self.0, source.0.make_shallow_clone())",
-                   detail="clone_from replaces %s by %s" % (a0, a1))
-    cl = roots.get("clone")
-    if cl and cl in F.bodies:
-        b = F.bodies[cl]
-        ds = [describe(b, ("call", bb) if si == "term" else b.origin_rvalue(x)) for (bb, si, x) in b.defs.get(0, [])]
-        ds = [d.replace("make_shallow_clone(p1.0)", "make_shallow_clone(&*p1.0)") for d in ds]
-        ctx.ob("C08-clone_from", cl, "clone=shallow", ds == ["LeanString::LeanString{repr::Repr::make_shallow_clone(&*p1.0)}"], how="clone() = LeanString(self.0.make_shallow_clone())", detail="clone() returns %s" % ds)
+    rule_clone_replaces(ctx, roots)
     # the value returned by make_shallow_clone is a bitwise read of the receiver on every path
     b = F.bodies.get("repr::Repr::make_shallow_clone")
     if b:
@@ -221,7 +232,13 @@ def rule_C09_no_other_alloc(ctx, rule="C09-onlygate"):
     for path, b in F.bodies.items():
         for e in cg.out[path]:
             if e.kind == "leaf" and (e.name in ALLOC_SITES or e.name in RELEASE_SITES):
-                callers.setdefault(e.name, set()).add(path)
+                # a private helper that did not exist on the reference tree stands for the audited
+                # function(s) it is reached from
+                from guards import anchors, anchor_callers
+                if path in anchors(F):
+                    callers.setdefault(e.name, set()).add(path)
+                else:
+                    callers.setdefault(e.name, set()).update(anchor_callers(F, path) or {path})
     expect = {"alloc::alloc::alloc": {HEAP_MOD + "HeapBuffer::allocate_ptr"}, "alloc::alloc::realloc": {HEAP_MOD + "HeapBuffer::realloc"},
               "alloc::alloc::dealloc": {HEAP_MOD + "HeapBuffer::dealloc"}}
     for nm, want in expect.items():
@@ -406,7 +423,7 @@ def rule_C10(ctx):
                   if callee in WRITE_LEAVES or callee in ("repr::Repr::as_slice_mut", "repr::Repr::as_str_mut", "core::slice::raw::from_raw_parts_mut")]
         ctx.ob("C10-static-nowrite", r, "static-walk", not writes, how="no write primitive or mutable view on feasible static paths",
                detail="operation on a static string can write through memory: %s" % "; ".join("%s in %s (line %d)" % (c, f, l) for f, c, l in writes[:3]))
-        kinds_out = {t.kind for cls, t in res if cls != "unwind"}
+        kinds_out = {t.kind for cls, t in res if not (isinstance(cls, str) and cls.startswith("unwind"))}
         if r in ("repr::Repr::pop", "repr::Repr::truncate", "LeanString::clear", "repr::Repr::shrink_to"):
             ctx.ob("C10-static-stays", r, "exit-kind", kinds_out <= {"S", "I"}, how="exits with kind in %s" % sorted(kinds_out), detail="static string leaves %s as %s" % (r, sorted(kinds_out)))
     # mutable pointers into field .0 of a Repr only under a heap guard
